@@ -25,8 +25,11 @@ def replay_parallel(func, cases: list, workdir: Path, nproc: int = NCPU, prefix:
         func(parts[0], paths[0])
         return paths
     ctx = mp.get_context("fork")
-    with ctx.Pool(len(parts)) as pool:
-        pool.starmap(func, list(zip(parts, paths)))
+    # a ProcessPoolExecutor raises BrokenProcessPool when a worker is killed (OOM) instead of hanging
+    with cf.ProcessPoolExecutor(max_workers=len(parts), mp_context=ctx) as pool:
+        futs = [pool.submit(func, part, path) for part, path in zip(parts, paths)]
+        for f in futs:
+            f.result()
     return paths
 
 
